@@ -450,6 +450,10 @@ def harness_dir(config="default"):
     tmpl = open(os.path.join(ROOT, "harness", "Cargo.toml.in")).read().replace("@REPO@", REPO)
     if config.startswith("nostd"):
         tmpl = tmpl.replace('dashu-base = { path = "%s/base" }' % REPO, 'dashu-base = { path = "%s/base", default-features = false }' % REPO)
+        # the std feature of dashu-base is also switched on by the default features of the three
+        # dependent crates (feature unification): they must be built without their defaults too
+        for crate, sub in (("dashu-int", "integer"), ("dashu-float", "float"), ("dashu-ratio", "rational")):
+            tmpl = tmpl.replace('%s = { path = "%s/%s", features' % (crate, REPO, sub), '%s = { path = "%s/%s", default-features = false, features' % (crate, REPO, sub))
     p = os.path.join(d, "Cargo.toml")
     if not os.path.exists(p) or open(p).read() != tmpl:
         open(p, "w").write(tmpl)
@@ -484,7 +488,7 @@ def harness_build(binname, config="default", timeout=1500):
     d = harness_dir(config)
     flags, profile = CONFIGS[config]
     tdir = os.path.join(CACHE, "target", sha(REPO, config))
-    env = {"RUSTFLAGS": flags + " -Awarnings", "CARGO_NET_OFFLINE": "true", "CARGO_TARGET_DIR": tdir}
+    env = {"RUSTFLAGS": flags + " -Awarnings", "CARGO_NET_OFFLINE": "true", "CARGO_TARGET_DIR": tdir, "DASHU_REPO": REPO}
     with Lock("cargo-" + sha(REPO, config)):
         rc, out = run(["cargo", "build", "--offline", "--profile", profile, "--bin", binname], cwd=d, timeout=timeout, env=env)
     if rc != 0:
